@@ -210,11 +210,12 @@ Lemma full_post_sync st s h : full st -> full (fst (post_sync s h st)).
 Proof.
   intro F. unfold post_sync. destruct (lookup s (sess st)) as [sl|] eqn:Hl; [|exact F].
   assert (H : full (fst (match find_box st (s_name sl) with
-                          | Some (i, b) => if i =? s_bid sl then do_sync s sl b st else (st, PStale)
+                          | Some (i, b) => if i =? s_bid sl then do_sync s sl b st else (drop_sel s st, PBye)
                           | None => (drop_sel s st, PBye)
                           end))).
   { destruct (find_box st (s_name sl)) as [[i b]|] eqn:Hf.
-    - destruct (N.eqb_spec i (s_bid sl)) as [->|Hne]; [|exact F].
+    - destruct (N.eqb_spec i (s_bid sl)) as [->|Hne];
+        [|cbn [fst]; split; [exact (proj1 F)|apply rec_drop_sel; exact (proj2 F)]].
       apply full_do_sync; [exact F|exact Hl|]. eapply find_box_In; eauto.
     - cbn [fst]. split; [exact (proj1 F)|apply rec_drop_sel; exact (proj2 F)]. }
   destruct h as [i|]; [|exact H].
@@ -235,7 +236,7 @@ Qed.
 
 Lemma full_resync st s : full st -> full (fst (resync s st)).
 Proof.
-  intro F. unfold resync. destruct (resolve st s) as [| | |sl i b] eqn:R; try exact F.
+  intro F. unfold resync. destruct (resolve st s) as [| |sl i b] eqn:R; try exact F.
   apply resolve_box in R as (Hl & Hf & ->).
   apply full_do_sync; [exact F|exact Hl|]. eapply find_box_In; eauto.
 Qed.
@@ -547,7 +548,7 @@ Proof.
   assert (Hin : In (i, b) (boxes st)) by (eapply find_box_In; eauto).
   assert (Hok : box_ok b) by (eapply Iu; eauto).
   destruct (live_ok _ Hok) as (Hle & Hasc & Hpos).
-  destruct ro; cbn [fst].
+  destruct (ro || box_ro st i); cbn [fst].
   - split; [exact Iu|].
     change (@nil (N * N * N)) with
       (map (fun u => (s_bid (mkSel i nm true (next_inst st) [] (live_uids b) 0), u, next_inst st))
@@ -592,10 +593,10 @@ Proof.
 Qed.
 
 (* ------------------------------------------------------- new mailboxes *)
-Lemma rec_add_box st nms base cb cs :
+Lemma rec_add_box st nms base cb cs ro :
   Inv_rec st ->
   Inv_rec (mkSys nms (boxes st ++ [(next_bid st, empty_box base)]) (sess st)
-                 (next_bid st + 1) (next_inst st) (held st) cb cs).
+                 (next_bid st + 1) (next_inst st) (held st) cb cs ro).
 Proof.
   intro I. destruct I.
   assert (Hbc : forall j x, In (j, x) (boxes st ++ [(next_bid st, empty_box base)]) ->
@@ -618,10 +619,41 @@ Qed.
 Lemma rec_set_names st n : Inv_rec st -> Inv_rec (set_names n st).
 Proof. intro I. destruct I. constructor; cbn [sess boxes held next_inst next_bid set_names]; auto. Qed.
 
+Lemma rec_set_ro st l : Inv_rec st -> Inv_rec (set_ro l st).
+Proof. intro I. destruct I. constructor; cbn [sess boxes held next_inst next_bid set_ro]; auto. Qed.
+
+Lemma full_set_names st n : full st -> full (set_names n st).
+Proof. intros [Iu I]. split; [exact Iu|apply rec_set_names; exact I]. Qed.
+
+Lemma full_adopt_one st i rc dl mk : full st -> full (adopt_one i rc dl mk st).
+Proof.
+  intros [Iu I]. split; [apply (proj1 (adopt_one_good i rc dl mk st)); exact Iu|].
+  unfold adopt_one. destruct (lookup i (boxes st)) as [b|] eqn:Hl; [|exact I].
+  eapply rec_replace_box; eauto; cbn [b_max b_msgs]; [lia|].
+  intros m Hm Hr. apply in_app_iff in Hm as [Hm|[<-|[]]]; [left; eauto|].
+  right. cbn [m_uid]. lia.
+Qed.
+
+Lemma full_adopt_loop i ms : forall st, full st -> full (adopt_loop i ms st).
+Proof.
+  induction ms as [|[[mk dl] rc] r IH]; intros st F; cbn [adopt_loop]; [exact F|].
+  apply IH, full_adopt_one, F.
+Qed.
+
 Lemma full_create_box st nm : full st -> full (create_box nm st).
 Proof.
   intros [Iu I]. split; [apply (proj1 (create_box_good nm st)); exact Iu|].
   apply rec_add_box. exact I.
+Qed.
+
+Lemma full_rename_tree st a b : full st -> full (rename_tree a b st).
+Proof.
+  intro F. unfold rename_tree.
+  assert (H : forall x y s0, full s0 -> full (rename_box x y s0)).
+  { intros x y s0 [Iu I]. split; [apply (proj1 (rename_box_good x y s0)); exact Iu|].
+    unfold rename_box. destruct (lookup x (names s0)); [|exact I].
+    destruct (x =? INBOX); [apply rec_add_box; exact I|apply rec_set_names; exact I]. }
+  destruct (name_sub a), (name_sub b); auto.
 Qed.
 
 Lemma full_rename_box st a b : full st -> full (rename_box a b st).
@@ -657,12 +689,19 @@ Proof.
   - (* Create *)
     destruct (nm =? INBOX); [exact F|]. destruct (lookup nm (names st)); [exact F|].
     pairfst (post_sync s None (create_box nm st)). apply full_post_sync, full_create_box, F.
+  - (* Delete *)
+    destruct (nm =? INBOX); [exact F|]. destruct (lookup nm (names st)); [|exact F].
+    pairfst (post_sync s None (set_names (remove nm (names st)) st)).
+    apply full_post_sync, full_set_names, F.
   - (* Rename *)
     destruct (b =? INBOX); [exact F|].
-    destruct (lookup a (names st)); [|exact F]. destruct (lookup b (names st)); [exact F|].
-    pairfst (post_sync s None (rename_box a b st)). apply full_post_sync, full_rename_box, F.
+    destruct (in_tree st a && negb (in_tree st b)); [|exact F].
+    match goal with |- context [if ?c then _ else _] => destruct c end.
+    + apply full_rename_tree, F.
+    + pairfst (post_sync s None (rename_tree a b st)). apply full_post_sync, full_rename_tree, F.
   - (* Append *)
     destruct (find_box st nm) as [[i b]|]; [|exact F].
+    destruct (box_ro st i); [exact F|].
     destruct (pick_ok st s i (c_pick ch)) eqn:Hp; [|exact F].
     pose proof (full_append_loop i (c_pick ch) ms st F (pick_ok_valid _ _ _ _ Hk Hp)) as F1.
     destruct (append_loop i (c_pick ch) ms st) as [st1 us]. cbn [fst] in F1.
@@ -673,30 +712,31 @@ Proof.
     destruct (lookup s (sess st)) as [sl|]; [|exact F].
     destruct (s_ro sl); [apply full_drop_sel, F|].
     destruct (find_box st (s_name sl)) as [[i b]|]; [|apply full_drop_sel, F].
-    destruct (i =? s_bid sl); [|exact F].
+    destruct (i =? s_bid sl); [|apply full_drop_sel, F].
     cbn [fst]. apply full_drop_sel, full_remove_msgs, F.
   - (* Logout *) apply full_drop_sel, F.
   - (* Noop *)
-    destruct (resolve st s) as [| | |sl i b] eqn:R; try exact F.
+    destruct (resolve st s) as [| |sl i b] eqn:R; try exact F.
     apply resolve_box in R as (Hl & Hf & ->).
     pairfst (do_sync s sl b st). apply full_do_sync; [exact F|exact Hl|eapply find_box_In; eauto].
   - (* Expunge *)
-    destruct (resolve st s) as [| | |sl i b]; try exact F.
+    destruct (resolve st s) as [| |sl i b]; try exact F.
     destruct (s_ro sl); [exact F|].
     match goal with |- context [resync s ?X] => pairfst (resync s X) end.
     apply full_resync, full_remove_msgs, F.
   - (* Copy *)
-    destruct (resolve st s) as [| | |sl i b]; try exact F.
+    destruct (resolve st s) as [| |sl i b]; try exact F.
     destruct (find_box st nm) as [[j bj]|]; [|exact F].
+    destruct (box_ro st j); [exact F|].
     destruct (pick_ok st s j (c_pick ch)) eqn:Hp; [|exact F].
     match goal with |- context [copy_loop false i j ?c ?us st] =>
       pose proof (full_copy_loop false i j c us st F (pick_ok_valid _ _ _ _ Hk Hp)) as F1;
       destruct (copy_loop false i j c us st) as [st1 ps] end.
     cbn [fst] in F1. pairfst (resync s st1). apply full_resync, F1.
   - (* Move *)
-    destruct (resolve st s) as [| | |sl i b]; try exact F.
+    destruct (resolve st s) as [| |sl i b]; try exact F.
     destruct (find_box st nm) as [[j bj]|]; [|exact F].
-    destruct (s_ro sl); [exact F|].
+    destruct (s_ro sl || box_ro st j); [exact F|].
     destruct (pick_ok st s j (c_pick ch)) eqn:Hp; [|exact F].
     match goal with |- context [copy_loop true i j ?c ?us st] =>
       pose proof (full_copy_loop true i j c us st F (pick_ok_valid _ _ _ _ Hk Hp)) as F1;
@@ -706,19 +746,33 @@ Proof.
     destruct (find_box st nm) as [[i b]|]; [|exact F].
     pairfst (post_sync s (Some i) st). apply full_post_sync, F.
   - (* Fetch *)
-    destruct (resolve st s) as [| | |sl i b] eqn:R; try exact F.
+    destruct (resolve st s) as [| |sl i b] eqn:R; try exact F.
     apply resolve_box in R as (Hl & Hf & ->).
     assert (F1 : full (fst (do_sync s sl b st)))
       by (apply full_do_sync; [exact F|exact Hl|eapply find_box_In; eauto]).
     destruct (do_sync s sl b st) as [st1 p]. cbn [fst] in F1.
     destruct (lookup s (sess st1)); exact F1.
   - (* Store *)
-    destruct (resolve st s) as [| | |sl i b] eqn:R; try exact F.
+    destruct (resolve st s) as [| |sl i b] eqn:R; try exact F.
     apply resolve_box in R as (Hl & Hf & ->).
     assert (F1 : full (fst (do_sync s sl b st)))
       by (apply full_do_sync; [exact F|exact Hl|eapply find_box_In; eauto]).
     destruct (do_sync s sl b st) as [st1 p]. cbn [fst] in F1.
     destruct (s_ro sl); cbn [fst]; [exact F1|]. apply full_map_store, F1.
+  - (* Idle *) destruct (lookup s (sess st)); exact F.
+  - (* IdleWake *)
+    destruct (resolve st s) as [| |sl i b] eqn:R; try exact F.
+    apply resolve_box in R as (Hl & Hf & ->).
+    pairfst (do_sync s sl b st). apply full_do_sync; [exact F|exact Hl|eapply find_box_In; eauto].
+  - (* Done *)
+    destruct (resolve st s) as [| |sl i b] eqn:R; try exact F.
+    apply resolve_box in R as (Hl & Hf & ->).
+    pairfst (do_sync s sl b st). apply full_do_sync; [exact F|exact Hl|eapply find_box_In; eauto].
+  - (* MakeRo *)
+    destruct (find_box st nm) as [[i b]|]; [|exact F]. cbn [fst].
+    split; [exact (proj1 F)|apply rec_set_ro; exact (proj2 F)].
+  - (* Adopt *)
+    destruct (find_box st nm) as [[i b]|]; [|exact F]. apply full_adopt_loop, F.
 Qed.
 
 Lemma init_full base shared : full (init_cfg base shared).
